@@ -553,6 +553,55 @@ def register(I):
         ok = z3.And(z3.ULT(v, 0x110000), z3.Not(z3.And(z3.UGE(v, 0xD800), z3.ULE(v, 0xDFFF))))
         return Outcomes([(ok, opt_some(v)), (z3.Not(ok), OPT_NONE)])
 
+    # ----------------------------------------------------------------- char methods
+    def rng(c, lo, hi):
+        if isinstance(c, int):
+            return lo <= c <= hi
+        return z3.And(z3.UGE(c, lo), z3.ULE(c, hi))
+
+    def char_pred(name, f_sym, f_conc=None):
+        def h(I, st, args, info):
+            c = deref_all(I, args[0], st)
+            if isinstance(c, int) and f_conc is not None:
+                return f_conc(chr(c))
+            return f_sym(c)
+        h.__name__ = "char_" + name
+        for pre in ("<impl char>", "char", "methods"):
+            R["%s::%s" % (pre, name)] = h
+    char_pred("is_ascii_alphabetic", lambda c: b_or(rng(c, 65, 90), rng(c, 97, 122)))
+    char_pred("is_ascii_digit", lambda c: rng(c, 48, 57))
+    char_pred("is_ascii_alphanumeric", lambda c: b_or(rng(c, 65, 90), rng(c, 97, 122), rng(c, 48, 57)))
+    char_pred("is_ascii_uppercase", lambda c: rng(c, 65, 90))
+    char_pred("is_ascii_lowercase", lambda c: rng(c, 97, 122))
+    char_pred("is_ascii_whitespace", lambda c: b_or(*[chr_eq(c, k) for k in (32, 9, 10, 12, 13)]))
+    char_pred("is_ascii_punctuation", lambda c: b_or(rng(c, 33, 47), rng(c, 58, 64), rng(c, 91, 96), rng(c, 123, 126)))
+    char_pred("is_ascii", lambda c: rng(c, 0, 127))
+    char_pred("is_ascii_hexdigit", lambda c: b_or(rng(c, 48, 57), rng(c, 65, 70), rng(c, 97, 102)))
+    char_pred("is_ascii_control", lambda c: b_or(rng(c, 0, 31), chr_eq(c, 127)))
+
+    def unicode_pred(name, pyf):
+        def sym(c):
+            raise Unsupported("char::%s on a symbolic character" % name)
+        char_pred(name, sym, pyf)
+    unicode_pred("is_alphabetic", lambda ch: ch.isalpha())
+    unicode_pred("is_numeric", lambda ch: ch.isnumeric())
+    unicode_pred("is_alphanumeric", lambda ch: ch.isalnum())
+    unicode_pred("is_whitespace", lambda ch: ch.isspace())
+    unicode_pred("is_uppercase", lambda ch: ch.isupper())
+    unicode_pred("is_lowercase", lambda ch: ch.islower())
+    unicode_pred("is_control", lambda ch: ord(ch) < 32 or 127 <= ord(ch) < 160)
+
+    def to_case(name, lo, hi, delta):
+        def h(I, st, args, info):
+            c = deref_all(I, args[0], st)
+            if isinstance(c, int):
+                return c + delta if lo <= c <= hi else c
+            return z3.If(z3.And(z3.UGE(c, lo), z3.ULE(c, hi)), c + delta, c)
+        for pre in ("<impl char>", "char", "methods"):
+            R["%s::%s" % (pre, name)] = h
+    to_case("to_ascii_lowercase", 65, 90, 32)
+    to_case("to_ascii_uppercase", 97, 122, -32)
+
     # ----------------------------------------------------------------- Vec / slices / Box / Rc
     @reg("Vec::new")
     def vec_new(I, st, args, info):
@@ -808,6 +857,36 @@ def register(I):
             elif r is not False:
                 raise Unsupported("symbolic filter predicate")
         return IterV(out)
+
+    @reg("Iterator::find_map", "Iterator::find", "Iterator::position")
+    def it_find(I, st, args, info):
+        which = info.path.last()
+        it = deref_all(I, args[0], st)
+        unordered = isinstance(it, UnorderedIter)
+        cur, items, panics = drive_paths(I, it, st, unordered_ok=True)
+        if panics:
+            raise Unsupported("panic inside iterator adaptor before " + which)
+        st.store, st.pc = cur.store, cur.pc
+        hits = []
+        for idx, x in enumerate(items):
+            r = I.call_inplace(args[1], [x if which == "find_map" or which == "position" else ValRef(x)], st)
+            if which == "find_map":
+                if isinstance(r, Union):
+                    raise Unsupported("symbolic find_map result")
+                if r.variant == "Some":
+                    hits.append(r)
+            else:
+                if r is True:
+                    hits.append(opt_some(x if which == "find" else idx))
+                elif r is not False:
+                    raise Unsupported("symbolic predicate in " + which)
+            if hits and not unordered:
+                break
+        if not hits:
+            return OPT_NONE
+        if unordered and len(hits) > 1 and not all(same(hits[0], h) for h in hits[1:]):
+            raise Unsupported("result depends on HashMap iteration order (%s with several matches)" % which)
+        return hits[0]
 
     @reg("Iterator::map")
     def it_map(I, st, args, info):
